@@ -329,6 +329,26 @@ def mutated_after(fnode):
     return after
 
 
+def reads(nodes):
+    """names read by the nodes, the targets of comprehensions / generator expressions being local to them"""
+    out = set()
+    def walk(n, bound):
+        if isinstance(n, (ast.GeneratorExp, ast.ListComp, ast.SetComp, ast.DictComp)):
+            b = set(bound)
+            for g in n.generators:
+                walk(g.iter, b)
+                _target_names(g.target, b)
+                for c in g.ifs: walk(c, b)
+            for fld in ('elt', 'key', 'value'):
+                if hasattr(n, fld): walk(getattr(n, fld), b)
+            return
+        if isinstance(n, ast.Name):
+            if isinstance(n.ctx, ast.Load) and n.id not in bound: out.add(n.id)
+            return
+        for c in ast.iter_child_nodes(n): walk(c, bound)
+    for n in nodes: walk(n, set())
+    return out
+
 def _target_names(t, out):
     if isinstance(t, ast.Name): out.add(t.id)
     elif isinstance(t, (ast.Tuple, ast.List)):
@@ -341,13 +361,13 @@ def reads_before_writes(stmts, written):
     out = set()
     for s in stmts:
         if isinstance(s, ast.Assign):
-            out |= read_names([s.value]) - written
+            out |= reads([s.value]) - written
             for t in s.targets:
                 for n in ast.walk(t):
                     if isinstance(n, ast.Name) and isinstance(n.ctx, ast.Load) : out |= {n.id} - written
                 _target_names(t, written)
         elif isinstance(s, ast.If):
-            out |= read_names([s.test]) - written
+            out |= reads([s.test]) - written
             w1, w2 = set(written), set(written)
             out |= reads_before_writes(s.body, w1)
             out |= reads_before_writes(s.orelse, w2)
@@ -357,7 +377,7 @@ def reads_before_writes(stmts, written):
             elif leaves(s.orelse): written |= w1
             else: written |= (w1 & w2)
         elif isinstance(s, ast.For):
-            out |= read_names([s.iter]) - written
+            out |= reads([s.iter]) - written
             w = set(written); _target_names(s.target, w)
             out |= reads_before_writes(s.body, w)
             out |= reads_before_writes(s.orelse, set(written))
@@ -375,7 +395,7 @@ def reads_before_writes(stmts, written):
                 common = set.intersection(*ws)
                 written |= common
         else:
-            out |= read_names([s]) - written
+            out |= reads([s]) - written
     return out
 
 # ----------------------------------------------------------------------------- expressions and statements
@@ -718,7 +738,7 @@ class Fn(Stmts):
         def lits(x): return isinstance(x, ast.Constant) and isinstance(x.value, str)
         if e.keywords: bad(e, f'str.{attr} with keyword arguments')
         if attr == 'lower' and not a:
-            return f'({self.oracle("lower")} {atom(vt)})', STR
+            return f'({self.u.lower_fn(self)} {atom(vt)})', STR
         if attr == 'split' and len(a) == 1 and lit1(a[0]):
             return f'(HdrPy.split {lean_char(a[0].value)} {atom(vt)})', LIST(STR)
         if attr in ('split', 'rsplit') and len(a) == 2 and lit1(a[0]) and isinstance(a[1], ast.Constant) and a[1].value == 1:
@@ -943,8 +963,8 @@ class Fn(Stmts):
         if isinstance(value, ast.Call):
             f = value.func
             if isinstance(f, ast.Name): return True       # sorted(), set(), list(), pseudo-functions, translated functions (they return fresh values or immutable ones)
-            if isinstance(f, ast.Attribute) and f.attr in ('split', 'rsplit', 'splitlines', 'keys', 'values', 'items', 'strip', 'lower', 'copy', 'findall', 'groups'): return True
-            return self.u.fresh_call(self, value, env)
+            if isinstance(f, ast.Attribute) and f.attr in ('get', 'setdefault', 'pop', 'popitem'): return False     # may hand out a container stored inside another
+            return True
         if isinstance(value, ast.IfExp): return self.fresh(value.body, env) and self.fresh(value.orelse, env)
         return False
 
@@ -1176,15 +1196,28 @@ class Fn(Stmts):
     def lvar(self, v):
         return lname(v)
 
+    def join_vars(self, blocks, env, live):
+        """variables assigned in the blocks that the continuation reads.  A name not bound before and not assigned in EVERY block is
+        left out: `live` is flow-insensitive, and if the continuation really read it (UnboundLocalError on some path in Python) the
+        output would mention an unbound identifier and not compile."""
+        per = [assigned_names(b, self.writes_map) for b in blocks]
+        names = set().union(*per) if per else set()
+        return sorted(n for n in names if n in live and (n in env or all(n in p for p in per)))
+
     def loop_vars(self, s, env, live, targets):
         """the loop-carried variables: assigned in the body and read in a later iteration (before being assigned again) or after the loop"""
         assigned = assigned_names(s.body, self.writes_map)
         tnames = set()
         _target_names(s.target, tnames)
-        carried = reads_before_writes(s.body, set(tnames)) | live
+        inner = reads_before_writes(s.body, set(tnames))
+        carried = inner | live
         vars_ = sorted(v for v in assigned if v in carried and v not in tnames)
-        for v in vars_:
-            if v not in env: bad(s, f'{v} is assigned in the loop and used outside one iteration but not bound before the loop')
+        for v in list(vars_):
+            if v not in env:
+                if v in inner: bad(s, f'{v} is assigned in the loop and read in a later iteration but not bound before the loop')
+                # only the (flow-insensitive) `live` set asks for it: a local of one iteration, unless the code after the loop really reads its
+                # last value — then the output mentions an unbound identifier and does not compile (never silently wrong)
+                vars_.remove(v)
         for t in tnames:
             if t in live and t in env: bad(s, 'loop variable used after the loop')
         return vars_
@@ -1234,6 +1267,7 @@ class Unit:
         return found[0]
 
     def get_function(self, name, at): return self.functions.get(name)
+    def lower_fn(self, fn): return fn.oracle('lower')       # str.lower: an oracle (Unicode)
 
     # hooks
     def global_name(self, fn, e, env, B): return None
